@@ -232,6 +232,7 @@ class Machine:
         self.lint = lint
         self.now = 0                 # global ns since first event
         self.expect = Expect()
+        self.offgrammar = None       # time of the first step outside the task runtimes' grammar (C20)
         self.first_illegal = None    # (time, reason)
         self.dontcare = False
         self.ev_times = []
@@ -361,6 +362,9 @@ class Machine:
         if st[-1] != label:
             self.illegal("pop %s does not match top %s" % (label, st[-1]))
         st.pop()
+        if (model in TASK_BODY_LABEL and st and st[-1] == TASK_BODY_LABEL[model] and th.bstack[model]
+                and th.bstack[model][-1].state == "paused" and self.offgrammar is None):
+            self.offgrammar = self.now   # region closed over a body that is still paused
 
     # ---------------------------------------------------------------- ovni
     def apply_ovni(self, th, mcv, payload):
@@ -625,6 +629,9 @@ class Machine:
             return
         if v == "p":
             body.state = "paused"
+            ss = th.chan[(model, ssch)]
+            if ss and ss[-1] == TASK_BODY_LABEL[model] and self.offgrammar is None:
+                self.offgrammar = self.now   # paused with no API/blocking region above the body
         elif v == "r":
             body.state = "running"
         else:
